@@ -23,6 +23,12 @@ func init() {
 					}
 				}
 			}
+			// WalkDir (operation 17): visits and the paths embedded in the errors given to the callback
+			for abs := int64(0); abs <= 1; abs++ {
+				for n := int64(0); n <= 2; n++ {
+					cs = append(cs, mkCase("", "c10", "HCall", cfg, 17, abs, n))
+				}
+			}
 			for n := int64(0); n <= maxN; n++ {
 				cs = append(cs, mkCase("", "c10", "HNames", cfg, n))
 			}
@@ -39,7 +45,7 @@ func init() {
 			return []group{{Tags: "", Pkgs: []string{"c10"}, Cases: cs}}
 		},
 		Reach:       []string{"call", "names", "after-chdir", "spelling"},
-		Explanation: "Bounded symbolic execution of BasePathFS (ToBasePath, FromBasePath, FromPathError, FromLinkError and the per-method forwarding) over a MemFS base with base directory B=/w/a: one of 17 operations with a path of n fully symbolic bytes (all values but NUL; absolute and relative variants, so '.', '..', repeated separators and B's own prefix are covered) is applied through the wrapper and, in lock-step, to a standalone MemFS whose root holds B's content. Asserted for every value: no panic; the observable state of everything outside B in the base is unchanged (confinement); errno, result and resulting tree equal the standalone file system's; no path returned or embedded in an error starts with B.",
+		Explanation: "Bounded symbolic execution of BasePathFS (ToBasePath, FromBasePath, FromPathError, FromLinkError and the per-method forwarding) over a MemFS base with base directory B=/w/a: one of 17 operations (and WalkDir with up to 2 path bytes, visits and callback errors compared) with a path of n fully symbolic bytes (all values but NUL; absolute and relative variants, so '.', '..', repeated separators and B's own prefix are covered) is applied through the wrapper and, in lock-step, to a standalone MemFS whose root holds B's content. Asserted for every value: no panic; the observable state of everything outside B in the base is unchanged (confinement); errno, result and resulting tree equal the standalone file system's; no path returned or embedded in an error starts with B.",
 		Bounds: func(tier string) map[string]any {
 			return map[string]any{"symbolic_path_bytes": map[string]string{"quick": "3", "thorough": "4 for absolute paths of single calls except Glob (no verdict within 5 min), 3 otherwise"}[tier], "calls_per_history": "1, and Chdir followed by 1 call with a relative symbolic path", "outside": "longer paths and histories, symbolic links in the base, OrefaFS as base"}
 		},
